@@ -132,7 +132,7 @@ def execute(sc, sched):
     if res.outcome == 'violation' or sched.get('seed', 0) % 499 == 0:
       res.sample = {'clients': sc['clients'], 'stops': [{k: str(s[k]) for k in s} for s in run.stops],
                     'dispatch_ao1': [(d[0], d[2], d[3]) for d in run.dispatch if d[1] == 0][:16],
-                    'timer_appends': {k: [(a[0], a[3] / 1e6) for a in v][:8] for k, v in (ac.timer_appends(run, 0).items() if run.objs else [])}}
+                    'timer_appends': {k: [(a[0], a[3] / 1e6) for a in v][:8] for k, v in (ac.source_appends(run, 0).items() if run.objs else [])}}
   finally:
     common.finish(sim, res)
   return res
@@ -187,12 +187,12 @@ def judge(sc, run, sim, res):
       return
     sim.probe('external_stop_after_handler_stop')
   st_end = ref['end']
-  for tn, lst in sorted(ac.timer_appends(run, 0).items()):
+  for tn, lst in sorted(ac.source_appends(run, 0).items()):
     late = [a for a in lst if a[0] > st_end]
     if late:
       st = ref
       res.violate('post-after-stop', {'n': 'one' if len(late) == 1 else 'several', 'from': ('client-after-handler' if ref is not run.stops[0] else 'handler') if run.stops[0]['from'] == 'handler' else 'client'},
-                  'stop() returned at seq %d (t=%.6fs) but timer thread %s still put %d event(s) into the queue: %s' % (
+                  'stop() returned at seq %d (t=%.6fs) but the timed source posting %s still put %d event(s) into the queue: %s' % (
                     st['end'], t_of_seq.get(st['end'], 0) / 1e6, tn, len(late), [(a[0], a[3] / 1e6) for a in late[:4]]))
       return
   # the others keep running
